@@ -81,10 +81,20 @@ func longComment(s string) string {
 	return s
 }
 
+// replyKey: entry ci of the reply pool; 100 and above are plain public keys (a CA that sends its own key
+// line or a bare key next to - or in place of - the certificates)
+func replyKey(ci int) ssh.PublicKey {
+	if ci >= 100 {
+		names := []string{"p256b", "ed25519b", "rsa1536", "p384a"}
+		return vh.SSHPub(names[(ci-100)%len(names)])
+	}
+	return pool()[ci%len(pool())]
+}
+
 func keyText(e Endpoint) string {
 	var b strings.Builder
 	for i, ci := range e.Certs {
-		line := strings.TrimSuffix(string(ssh.MarshalAuthorizedKey(pool()[ci%len(pool())])), "\n")
+		line := strings.TrimSuffix(string(ssh.MarshalAuthorizedKey(replyKey(ci))), "\n")
 		if i < len(e.Comments) && e.Comments[i] != "" {
 			line += " " + longComment(e.Comments[i])
 		}
@@ -129,6 +139,9 @@ func genEndpoint(t *rapid.T, label string) Endpoint {
 			ci := rapid.IntRange(0, 5).Draw(t, fmt.Sprintf("%sC%d", label, i))
 			if rapid.IntRange(0, 31).Draw(t, fmt.Sprintf("%sBig%d", label, i)) == 17 {
 				ci = 6 + rapid.IntRange(0, 1).Draw(t, fmt.Sprintf("%sBigC%d", label, i))
+			}
+			if rapid.IntRange(0, 11).Draw(t, fmt.Sprintf("%sPlain%d", label, i)) == 7 {
+				ci = 100 + rapid.IntRange(0, 3).Draw(t, fmt.Sprintf("%sPlainK%d", label, i)) // a plain public key among the entries
 			}
 			e.Certs = append(e.Certs, ci)
 			e.Comments = append(e.Comments, rapid.SampledFrom([]string{"", "TouchlessSSH", "user_a@host", "two words", "é 日本", "a  b", "-", "ssh-rsa", "LONG4096", "LONG70000"}).Draw(t, fmt.Sprintf("%sM%d", label, i)))
@@ -355,15 +368,40 @@ func oneRound(c Case, cur []Endpoint, round int, g *vh.CAGroup, signer *crypki.S
 		return vh.Errf("endpoint %d signs but Sign failed (behaviours %v): %v", firstOK, behavioursOf(cur), serr)
 	}
 	want := cur[firstOK]
-	if len(certs) != len(want.Certs) || len(comments) != len(certs) {
-		return vh.Errf("%d certificates and %d comments returned, endpoint %d sent %d certificates", len(certs), len(comments), firstOK, len(want.Certs))
+	if len(comments) != len(certs) {
+		return vh.Errf("%d certificates and %d comments returned", len(certs), len(comments))
 	}
+	if len(certs) == 0 {
+		return vh.Errf("endpoint %d answered successfully with %d entries, yet Sign returned an empty success (no certificate, no error)", firstOK, len(want.Certs))
+	}
+	// entries that are plain public keys: whether they are handed on is not stated; the certificates are, in the
+	// CA's order and with their comments
+	wantCerts, wantComments, plain := []int{}, []string{}, 0
 	for i, ci := range want.Certs {
-		if !bytes.Equal(certs[i].Marshal(), pool()[ci%len(pool())].Marshal()) {
+		if ci >= 100 {
+			plain++
+			continue
+		}
+		wantCerts, wantComments = append(wantCerts, ci), append(wantComments, want.Comments[i])
+	}
+	gotCerts, gotComments := certs, comments
+	if plain > 0 {
+		gotCerts, gotComments = nil, nil
+		for i, k := range certs {
+			if _, isCert := k.(*ssh.Certificate); isCert {
+				gotCerts, gotComments = append(gotCerts, k), append(gotComments, comments[i])
+			}
+		}
+	}
+	if len(gotCerts) != len(wantCerts) {
+		return vh.Errf("%d certificates returned, endpoint %d sent %d certificates (and %d plain keys)", len(gotCerts), firstOK, len(wantCerts), plain)
+	}
+	for i, ci := range wantCerts {
+		if !bytes.Equal(gotCerts[i].Marshal(), replyKey(ci).Marshal()) {
 			return vh.Errf("certificate %d is not the one endpoint %d sent at that position", i, firstOK)
 		}
-		if comments[i] != longComment(want.Comments[i]) {
-			return vh.Errf("comment %d is %.80q (%d bytes), endpoint %d sent %s", i, comments[i], len(comments[i]), firstOK, want.Comments[i])
+		if gotComments[i] != longComment(wantComments[i]) {
+			return vh.Errf("comment %d is %.80q (%d bytes), endpoint %d sent %s", i, gotComments[i], len(gotComments[i]), firstOK, wantComments[i])
 		}
 	}
 	return nil
@@ -377,7 +415,7 @@ func behaviours(c Case) []string {
 	return b
 }
 
-const rule = "endpoint lists of length 0..4 over 127.0.0.2..5 sharing one port, served by real gRPC-over-TLS Signing servers; per endpoint: signs 1..3 (one in 30: 12 / 40 / 100) certificates (small ones, rarely one of 64 KiB / 130 KiB) with comment shapes (none, one word, several words, non-ASCII, a key-type look-alike, 4 KB, 70 KB) and reply layouts (an extra empty or '#' line at the end, an empty line in front, CR LF line ends, a line of blanks at the end), RPC error with any status code 1..16 (a third of them with the texts real CAs send: maximum validity exceeded, unknown key identifier, too many principals, rate limit hints), empty key text, unparsable key text, no listener, hangs past the per-try deadline (rare); real crypki signer (NewSigner, or NewSignerWithGensignConf from a configuration map) with real TLS material, retries = 1; 1..3 Sign calls on the same Signer, with endpoints recovering or starting to fail after the first call, at RPC level (status code) and at connection level (an address without listener starts listening; a listening one goes away); a tenth of the cases enter Sign with a cancelled or expired context (deadline failure of every endpoint); request fields generated (0..8 principals, KeyID, validity, identifier, extensions, critical options). Oracle: contacted = the prefix up to and including the first signing endpoint, in order, each once, each receiving a request proto.Equal to the input; result = that endpoint's certificates and comments, same length, CA order; no signing endpoint or an empty list => non-nil error, never (nil, nil, nil). Non-trivial: a failing endpoint before a signing one, or all failing."
+const rule = "endpoint lists of length 0..4 over 127.0.0.2..5 sharing one port, served by real gRPC-over-TLS Signing servers; per endpoint: signs 1..3 (one in 30: 12 / 40 / 100) certificates (small ones, rarely one of 64 KiB / 130 KiB) with comment shapes (none, one word, several words, non-ASCII, a key-type look-alike, 4 KB, 70 KB) (one entry in twelve is a plain public key instead of a certificate - also as the only entry of a reply) and reply layouts (an extra empty or '#' line at the end, an empty line in front, CR LF line ends, a line of blanks at the end), RPC error with any status code 1..16 (a third of them with the texts real CAs send: maximum validity exceeded, unknown key identifier, too many principals, rate limit hints), empty key text, unparsable key text, no listener, hangs past the per-try deadline (rare); real crypki signer (NewSigner, or NewSignerWithGensignConf from a configuration map) with real TLS material, retries = 1; 1..3 Sign calls on the same Signer, with endpoints recovering or starting to fail after the first call, at RPC level (status code) and at connection level (an address without listener starts listening; a listening one goes away); a tenth of the cases enter Sign with a cancelled or expired context (deadline failure of every endpoint); request fields generated (0..8 principals, KeyID, validity, identifier, extensions, critical options). Oracle: contacted = the prefix up to and including the first signing endpoint, in order, each once, each receiving a request proto.Equal to the input; result = that endpoint's certificates and comments, same length, CA order (plain keys among the entries may or may not be handed on), never an empty success; no signing endpoint or an empty list => non-nil error, never (nil, nil, nil). Non-trivial: a failing endpoint before a signing one, or all failing."
 
 func TestC17Failover(t *testing.T) {
 	vh.Run(t, vh.Spec[Case]{Property: "C17", Name: "TestC17Failover", Rule: rule, Gen: gen, Exec: exec})
